@@ -131,12 +131,16 @@ impl SubprogramContext {
     }
 
     pub fn ensure_declarations_are_implemented(&self) -> Result<(), LintErrorPos> {
-        for (name, signature) in self.declarations.iter() {
-            if !self.implementations.contains_key(name) {
-                return Err(LintError::SubprogramNotDefined.at(signature));
-            }
-        }
-        Ok(())
+        // report the first offender in source order (not in the order of the hash map,
+        // which changes from run to run)
+        self.declarations
+            .iter()
+            .filter(|(name, _)| !self.implementations.contains_key(*name))
+            .map(|(_, signature)| signature)
+            .min_by_key(|signature| (signature.pos.row(), signature.pos.col()))
+            .map_or(Ok(()), |signature| {
+                Err(LintError::SubprogramNotDefined.at(signature))
+            })
     }
 
     /// Ensures the collected names do not clash with built-in names (e.g. `BEEP`, `LEN`, etc).
@@ -145,13 +149,13 @@ impl SubprogramContext {
     where
         F: Fn(&BareName) -> bool,
     {
-        for (k, v) in self.implementations.iter() {
-            if is_built_in(k) {
-                return Err(LintError::DuplicateDefinition.at(v));
-            }
-        }
-
-        Ok(())
+        // the first offender in source order, see ensure_declarations_are_implemented
+        self.implementations
+            .iter()
+            .filter(|(k, _)| is_built_in(k))
+            .map(|(_, v)| v)
+            .min_by_key(|v| (v.pos.row(), v.pos.col()))
+            .map_or(Ok(()), |v| Err(LintError::DuplicateDefinition.at(v)))
     }
 
     pub fn implementations(self) -> SignatureMap {
